@@ -115,6 +115,16 @@ def check_string(cx, http, DS, s):
         hs = DS.HeaderSet(exp)
         d = hs.to_header()
         cx.eq("headerset", s, d, list(http.parse_set_header(d)), list(hs))
+        # the same for a set that got its contents through its mutators (bulk update with case variants, add, discard)
+        hs = DS.HeaderSet(["keep"])
+        hs.update([s, "y", s.upper(), "Keep", s.swapcase(), s])
+        hs.add("Y")
+        hs.discard("KEEP")
+        hs.update(x for x in ("z", "Z"))
+        d = hs.to_header()
+        back = http.parse_set_header(d)
+        cx.eq("headerset", s, d, list(back), list(hs), "C06/headerset-built-by-mutators")
+        cx.eq("headerset", s, d, back.to_header(), d, "C06/headerset-not-a-normal-form")
         if '"' not in s and s:
             e = DS.ETags([s], ["w" + s])
             d = e.to_header()
